@@ -28,6 +28,8 @@ type Solver struct {
 	in        io.WriteCloser
 	out       *bufio.Reader
 	emitted   map[int]bool
+	scoped    bool    // definitions are scoped by push/pop (cvc5): forget them on pop
+	levelDefs [][]int // ids defined at each level (scoped mode)
 	Level     int
 	Queries   int
 	NSat      int
@@ -75,6 +77,8 @@ func (s *Solver) start() error {
 	s.cmd, s.in, s.out = cmd, in, bufio.NewReaderSize(out, 1<<16)
 	s.emitted = map[int]bool{}
 	s.Level = 0
+	s.scoped = s.Kind == "cvc5"
+	s.levelDefs = [][]int{nil}
 	if s.Kind == "cvc5" {
 		s.send("(set-logic ALL)\n")
 	} else {
@@ -122,11 +126,13 @@ func (s *Solver) define(root *Term, sb *strings.Builder) {
 		}
 		if t.Op == OVar {
 			s.emitted[t.ID] = true
+			s.noteDef(t.ID)
 			fmt.Fprintf(sb, "(declare-const %s %s)\n", t.Name, t.S)
 			continue
 		}
 		if it.done {
 			s.emitted[t.ID] = true
+			s.noteDef(t.ID)
 			fmt.Fprintf(sb, "(define-fun %s () %s %s)\n", t.Ref(), t.S, t.Body())
 			continue
 		}
@@ -139,11 +145,44 @@ func (s *Solver) define(root *Term, sb *strings.Builder) {
 	}
 }
 
+func (s *Solver) noteDef(id int) {
+	if s.scoped {
+		s.levelDefs[len(s.levelDefs)-1] = append(s.levelDefs[len(s.levelDefs)-1], id)
+	}
+}
+
+func (s *Solver) pushLevel() {
+	if s.scoped {
+		s.levelDefs = append(s.levelDefs, nil)
+	}
+}
+
+func (s *Solver) popLevels(n int) {
+	if !s.scoped {
+		return
+	}
+	for i := 0; i < n; i++ {
+		top := s.levelDefs[len(s.levelDefs)-1]
+		for _, id := range top {
+			delete(s.emitted, id)
+		}
+		s.levelDefs = s.levelDefs[:len(s.levelDefs)-1]
+	}
+}
+
 // Push asserts t at a new level.
 func (s *Solver) Push(t *Term) {
 	var sb strings.Builder
-	s.define(t, &sb)
-	fmt.Fprintf(&sb, "(push 1)\n(assert %s)\n", t.Ref())
+	if s.scoped {
+		// definitions needed by t must live inside the new level
+		sb.WriteString("(push 1)\n")
+		s.pushLevel()
+		s.define(t, &sb)
+		fmt.Fprintf(&sb, "(assert %s)\n", t.Ref())
+	} else {
+		s.define(t, &sb)
+		fmt.Fprintf(&sb, "(push 1)\n(assert %s)\n", t.Ref())
+	}
 	s.send(sb.String())
 	s.Level++
 }
@@ -153,6 +192,7 @@ func (s *Solver) Pop(n int) {
 		return
 	}
 	s.send(fmt.Sprintf("(pop %d)\n", n))
+	s.popLevels(n)
 	s.Level -= n
 }
 
@@ -169,8 +209,15 @@ func (s *Solver) Check(extra *Term, wantModel []*Term) (Result, map[string]uint6
 	s.Queries++
 	var sb strings.Builder
 	if extra != nil {
-		s.define(extra, &sb)
-		fmt.Fprintf(&sb, "(push 1)\n(assert %s)\n", extra.Ref())
+		if s.scoped {
+			sb.WriteString("(push 1)\n")
+			s.pushLevel()
+			s.define(extra, &sb)
+			fmt.Fprintf(&sb, "(assert %s)\n", extra.Ref())
+		} else {
+			s.define(extra, &sb)
+			fmt.Fprintf(&sb, "(push 1)\n(assert %s)\n", extra.Ref())
+		}
 	}
 	sb.WriteString("(check-sat)\n")
 	s.send(sb.String())
@@ -212,8 +259,9 @@ func (s *Solver) Check(extra *Term, wantModel []*Term) (Result, map[string]uint6
 	if res == Sat && len(wantModel) > 0 {
 		model = s.getValues(wantModel)
 	}
-	if extra != nil {
+	if extra != nil && s.cmd != nil {
 		s.send("(pop 1)\n")
+		s.popLevels(1)
 	}
 	switch res {
 	case Sat:
